@@ -10,6 +10,12 @@ Property theorems only (helper lemmas: `Lemmas/Controller.lean`; model of the co
 Every statement is for **every** parameter setting allowed by `TrainingStateParams`
 (`Params.WF`: patiences ≥ 1, thresholds ≥ 0), every float rounding function `rnd`, every list of
 initial optimizer rates and every sequence of `(train_met, val_met)` pairs, of any length.
+
+Sections: decisions (`C15_no_keyerror` … `C15_continue_at`), the documented training loops
+(`C15_loop` …: the side condition `liveRun` holds on them), the rules' state on the raw sequence
+(`C15_spec_window`), the text of the history file (`C15_int_text`, `C15_float_text`,
+`C15_csv_roundtrip`, `C15_file_reread`, `C15_restart_text`, `C15_entries`, `C15_repr_text`; helper
+lemmas `Lemmas/ControllerText.lean`, model `Model/ControllerText.lean`), restarts.
 -/
 namespace PdtVerif.Controller
 open PdtVerif.TrainingRules
@@ -251,6 +257,27 @@ theorem C15_stop_loop (P : Params) (hP : P.WF) (g : List Rat) (ms : List (Rat ×
   rw [hk] at hL hfacts
   simp only at hfacts
   exact ⟨S, outs, L, hw, hstop, hL, hfacts.1, hfacts.2.1, hfacts.2.2.1⟩
+
+/-- **C15_live_of_obeyed** — the side condition `liveRun` of `C15_stop` / `C15_ref_epoch`, stated
+on the code's own return values instead of the rules: it holds for every call sequence in which
+`update_for_epoch` was never called again after it had returned `False` (all returned values
+except possibly the last are `True`). -/
+theorem C15_live_of_obeyed (P : Params) (hP : P.WF) (g : List Rat) (ms : List (Rat × Rat))
+    (S : State) (outs : List Out) (h : run P (init P g) ms = .ok (S, outs))
+    (hob : ∀ o ∈ outs.dropLast, o.cont = true) :
+    liveRun P (specInit P g) (vals ms) := by
+  have hb := breakLoop_of_obeyed ms _ S outs h hob
+  obtain ⟨S', outs', hb', _, _, _, hlive, _⟩ := C15_loop P hP g ms
+  rw [hb] at hb'
+  simp only [Except.ok.injEq, Prod.mk.injEq] at hb'
+  obtain ⟨rfl, rfl⟩ := hb'
+  obtain ⟨_, _, hr2, hl2, _⟩ := C15_no_keyerror P hP g ms
+  rw [h] at hr2
+  simp only [Except.ok.injEq, Prod.mk.injEq] at hr2
+  obtain ⟨_, rfl⟩ := hr2
+  have : ms.take outs.length = ms := by rw [hl2]; exact List.take_length
+  rw [this] at hlive
+  exact hlive
 
 /-- on the example: the loop runs 4 of the 5 epochs (early stopping fires at the 4th) -/
 example : (match whileLoop exP (init exP [1]) exMs with
